@@ -366,92 +366,99 @@ def _adapters(kit, cfg, env, jsample, T, calls, metas):
                 a = jsample(jax.random.fold_in(k, t), tsn.observation)
                 (s, ts), (sn, tsn) = jax.jit(m2s.step)(s, a), jax.jit(env.step)(sn, a)
             r15.count("m2s:" + lab)
-    base_env = W.MultiToSingleWrapper(env) if multi else env
-    # ---- gym adapter: op history with re-seeding, compared with the model over native tables
-    ids = Ids()
-    nat = Native(base_env, ids)
-    seed0 = 3 + kit.seed
-    try:
-        g = W.JumanjiToGymWrapper(base_env, seed=seed0)
-    except Exception as e:
-        kit.fail(["C15"], "JumanjiToGymWrapper cannot be built", dict(cfg=cfg["label"], op="gym-build"), dict(err=repr(e)[:300]))
-        return
-    rng = np.random.default_rng(kit.seed + 15)
-    ops, wire, outs = [], [], []
-    key = nat.seed(seed0)
-    cur = None
-    nsteps = min(T, 14)
-    # seed 0 is deliberately among the re-seeds, AFTER the adapter's key has advanced (a falsy seed must still re-seed)
-    plan = (["reset"] + ["step"] * nsteps + ["reset", "step", "step", "seed", "reset", "step", "reset-seed", "step", "step",
-                                             "reset-seed-same", "step", "step", "reset-seed-zero", "step", "step", "seed-zero", "reset", "step"])
-    last_obs = None
-    ended = False
-    for o in plan:
-        if o == "step" and ended:           # like a gym user: after an episode end, reset before stepping again
-            o = "reset"
-        if o in ("seed", "seed-zero"):
-            n = 0 if o == "seed-zero" else int(rng.integers(0, 1000))
-            g.seed(n)
-            key = nat.seed(n)
-            wire += [0, n]
-            outs += [0]
-            ops.append(("seed", n))
-            continue
-        if o in ("reset", "reset-seed", "reset-seed-same", "reset-seed-zero"):
-            if o == "reset":
-                obs, info = g.reset()
-                wire += [1]
-            else:
-                n = 4242 if o == "reset-seed-same" else 0 if o == "reset-seed-zero" else int(rng.integers(0, 1000))
-                if o == "reset-seed-same":
-                    pass
-                obs, info = g.reset(seed=n)
+    def gym_part(base_env, tag):
+        # ---- gym adapter: op history with re-seeding, compared with the model over native tables
+        ids = Ids()
+        nat = Native(base_env, ids)
+        seed0 = 3 + kit.seed
+        try:
+            g = W.JumanjiToGymWrapper(base_env, seed=seed0)
+        except Exception as e:
+            kit.fail(["C15"], "JumanjiToGymWrapper cannot be built", dict(cfg=cfg["label"], op="gym-build"), dict(err=repr(e)[:300]))
+            return
+        rng = np.random.default_rng(kit.seed + 15)
+        ops, wire, outs = [], [], []
+        key = nat.seed(seed0)
+        cur = None
+        nsteps = min(T, 14)
+        # seed 0 is deliberately among the re-seeds, AFTER the adapter's key has advanced (a falsy seed must still re-seed)
+        plan = (["reset"] + ["step"] * nsteps + ["reset", "step", "step", "seed", "reset", "step", "reset-seed", "step", "step",
+                                                 "reset-seed-same", "step", "step", "reset-seed-zero", "step", "step", "seed-zero", "reset", "step"])
+        last_obs = None
+        ended = False
+        for o in plan:
+            if o == "step" and ended:           # like a gym user: after an episode end, reset before stepping again
+                o = "reset"
+            if o in ("seed", "seed-zero"):
+                n = 0 if o == "seed-zero" else int(rng.integers(0, 1000))
+                g.seed(n)
                 key = nat.seed(n)
-                wire += [2, n]
-            l, r = nat.split(key)
-            for kk in (l, r, key):               # the right half and the unsplit key are decoys
-                nat.reset(kk)
-            cur, ts = nat.jreset(l)
-            key = r
-            outs += [1, _gym_obs_id(ids, obs, ts.observation), ids(("ext", {k: v for k, v in (info or {}).items()}))]
-            ops.append((o,))
-            last_obs = ts.observation
-            ended = False
+                wire += [0, n]
+                outs += [0]
+                ops.append(("seed", n))
+                continue
+            if o in ("reset", "reset-seed", "reset-seed-same", "reset-seed-zero"):
+                if o == "reset":
+                    obs, info = g.reset()
+                    wire += [1]
+                else:
+                    n = 4242 if o == "reset-seed-same" else 0 if o == "reset-seed-zero" else int(rng.integers(0, 1000))
+                    if o == "reset-seed-same":
+                        pass
+                    obs, info = g.reset(seed=n)
+                    key = nat.seed(n)
+                    wire += [2, n]
+                l, r = nat.split(key)
+                for kk in (l, r, key):               # the right half and the unsplit key are decoys
+                    nat.reset(kk)
+                cur, ts = nat.jreset(l)
+                key = r
+                outs += [1, _gym_obs_id(ids, obs, ts.observation), ids(("ext", {k: v for k, v in (info or {}).items()}))]
+                ops.append((o,))
+                last_obs = ts.observation
+                ended = False
+                _gym_member(kit, cfg, g, obs, "observation")
+                continue
+            # step with an action sampled from the converted gym action space half of the time
+            if rng.random() < 0.5:
+                a = g.action_space.sample()
+                a = np.asarray(a, dtype=base_env.action_spec.dtype)
+                r15.count("gym-action:sampled-from-space")
+                try:
+                    base_env.action_spec.validate(jnp.asarray(a))
+                except Exception as e:
+                    kit.fail(["C15"], "an action sampled from the converted gym action space is not a valid native action",
+                             dict(cfg=cfg["label"], op="gym-sample-valid"), dict(action=np.asarray(a).tolist(), err=repr(e)[:200]))
+            else:
+                a = np.asarray(jsample(jax.random.PRNGKey(int(rng.integers(0, 10 ** 6))), last_obs))
+                r15.count("gym-action:policy")
+            cur2, ts = nat.step(cur, jnp.asarray(a))
+            obs, rew, term, trunc, info = g.step(a)
+            wire += [3, ids(("act", np.asarray(jnp.asarray(a))))]
+            outs += [2, _gym_obs_id(ids, obs, ts.observation), ids(("rew", np.asarray(ts.reward))) if float(rew) == float(np.asarray(ts.reward)) else -7,
+                     int(bool(term)), int(bool(trunc)), ids(("ext", {k: v for k, v in (info or {}).items()}))]
+            ops.append(("step", np.asarray(a).tolist()))
             _gym_member(kit, cfg, g, obs, "observation")
-            continue
-        # step with an action sampled from the converted gym action space half of the time
-        if rng.random() < 0.5:
-            a = g.action_space.sample()
-            a = np.asarray(a, dtype=base_env.action_spec.dtype)
-            r15.count("gym-action:sampled-from-space")
-            try:
-                base_env.action_spec.validate(jnp.asarray(a))
-            except Exception as e:
-                kit.fail(["C15"], "an action sampled from the converted gym action space is not a valid native action",
-                         dict(cfg=cfg["label"], op="gym-sample-valid"), dict(action=np.asarray(a).tolist(), err=repr(e)[:200]))
-        else:
-            a = np.asarray(jsample(jax.random.PRNGKey(int(rng.integers(0, 10 ** 6))), last_obs))
-            r15.count("gym-action:policy")
-        cur2, ts = nat.step(cur, jnp.asarray(a))
-        obs, rew, term, trunc, info = g.step(a)
-        wire += [3, ids(("act", np.asarray(jnp.asarray(a))))]
-        outs += [2, _gym_obs_id(ids, obs, ts.observation), ids(("rew", np.asarray(ts.reward))) if float(rew) == float(np.asarray(ts.reward)) else -7,
-                 int(bool(term)), int(bool(trunc)), ids(("ext", {k: v for k, v in (info or {}).items()}))]
-        ops.append(("step", np.asarray(a).tolist()))
-        _gym_member(kit, cfg, g, obs, "observation")
-        r15.evaluations += 1
-        if not (isinstance(rew, float) and isinstance(term, bool) and isinstance(trunc, bool)):
-            kit.fail(["C15"], "gym step does not return (float, bool, bool)", dict(cfg=cfg["label"], op="gym-types"), dict(ops=ops[-3:]))
-        cur, last_obs = cur2, ts.observation
-        ended = int(ts.step_type) == 2
-    zs = sorted(nat.zero_disc)
-    calls.append(("wrappers_gym_io", nat.tables() + [len(zs)] + zs + [seed0] + wire))
-    metas.append(("C15", outs, dict(cfg=cfg["label"], op="gym-corr", ops=ops, seed=kit.seed)))
-    r15.traces += 1
-    r15.distinct.add((name, cfg["label"], "gym"))
-    if len(r15.samples) < 2:
-        r15.samples.append(dict(env=name, cfg=cfg["label"], adapter="gym", ops=[o[0] for o in ops]))
+            r15.evaluations += 1
+            if not (isinstance(rew, float) and isinstance(term, bool) and isinstance(trunc, bool)):
+                kit.fail(["C15"], "gym step does not return (float, bool, bool)", dict(cfg=cfg["label"], op="gym-types"), dict(ops=ops[-3:]))
+            cur, last_obs = cur2, ts.observation
+            ended = int(ts.step_type) == 2
+        zs = sorted(nat.zero_disc)
+        calls.append(("wrappers_gym_io", nat.tables() + [len(zs)] + zs + [seed0] + wire))
+        metas.append(("C15", outs, dict(cfg=cfg["label"] + tag, op="gym-corr", ops=ops, seed=kit.seed)))
+        r15.traces += 1
+        r15.distinct.add((name, cfg["label"] + tag, "gym"))
+        if len(r15.samples) < 2:
+            r15.samples.append(dict(env=name, cfg=cfg["label"], adapter="gym", ops=[o[0] for o in ops]))
+    base_env = W.MultiToSingleWrapper(env) if multi else env
+    gym_part(base_env, "")
+    if multi:
+        # a discount aggregator that yields FRACTIONS when the agents' discounts differ (Connector): gym's `terminated` must stay
+        # "the native discount is zero", not "the discount is not one"
+        gym_part(W.MultiToSingleWrapper(env, discount_aggregator=jnp.mean), "/mean-discount")
     # ---- dm_env adapter
+    rng = np.random.default_rng(kit.seed + 16)
     ids = Ids()
     nat = Native(base_env, ids)
     k0 = jax.random.PRNGKey(kit.seed + 21)
